@@ -593,6 +593,8 @@ func (p *DevStatusAnsPayload) UnmarshalBinary(data []byte) error {
 		return errors.New("lorawan: 2 bytes of data are expected")
 	}
 	p.Battery = data[0]
+	// bits 7..6 are RFU and must be ignored (Margin is a 6 bit signed integer)
+	data = []byte{data[0], data[1] & 0x3f}
 	if data[1] > 31 {
 		p.Margin = int8(data[1]) - 64
 	} else {
